@@ -12,7 +12,9 @@ import platform
 import sys
 import time
 import warnings
+from ast import literal_eval
 from collections.abc import Mapping, Sequence
+from numbers import Number
 from pathlib import Path
 from typing import TYPE_CHECKING, Any, Optional, Union
 
@@ -1182,6 +1184,23 @@ def run(
                 outputs.save_log_file(output_dir)
 
 
+def _convert_text(value: str) -> Any:
+    """Convert a text to the number, boolean, list or string that it denotes.
+
+    A text that does not denote one of those (e.g. ``'new_folder'``, ``'None'``) is
+    kept as it is.
+    """
+    try:
+        new_value = literal_eval(value)
+    except (SyntaxError, ValueError):
+        return value
+
+    if isinstance(new_value, Number | list | tuple | str):
+        return new_value
+
+    return value
+
+
 # TODO: Use ExceptionGroup
 # TODO: Add unit tests
 def apply_overrides(
@@ -1231,6 +1250,11 @@ def apply_overrides(
 
             obj, att = _get_obj_att(obj=mode, key=new_key)
             if hasattr(obj, att):
+                # A textual value (e.g. from the command line) is converted to the
+                # number, boolean or list that it denotes, like in 'Processor.set'
+                if isinstance(value, str):
+                    value = _convert_text(value)
+
                 setattr(obj, att, value)
             else:
                 raise AttributeError(f"Object {mode!r} has no attribute {new_key!r}")
